@@ -16,6 +16,17 @@ from fractions import Fraction
 import common
 from common import frac, rstr, rparse, close
 import stoch_gen
+
+
+def _fl(q):
+    """float of a rational that never raises (overflow -> inf)"""
+    try:
+        return float(q)
+    except OverflowError:
+        return float("inf") if q > 0 else float("-inf")
+
+
+_f = common.fstr
 import engine_io
 
 ID = "C02"
@@ -177,9 +188,9 @@ def check_totals(report, case, res, vectors, n, ns):
                 report.violation("total-changes:%s" % option,
                                  "the system-wide total of a conservation law changed between two consecutive samples (%s engine)" % option,
                                  dict(small(case), vector=c, sample=k),
-                                 impl={"total_before": float(tots[k - 1]), "total_after": float(tots[k]),
+                                 impl={"total_before": _f(tots[k - 1]), "total_after": _f(tots[k]),
                                        "x_before": rows[k - 1], "x_after": rows[k]},
-                                 expected={"total": float(tots[0])})
+                                 expected={"total": _f(tots[0])})
                 return None
     return cnt
 
@@ -267,8 +278,8 @@ def run(ctx):
                     ctx.case((sid, vi, k), nontrivial=nz and changed > 0)
             if len(ctx.samples) < 5 and nsteps:
                 ctx.samples.append({"engine": option, "reactions": [r["eq"] for r in case["net"]["reactions"]], "vectors": vectors,
-                                    "totals_first_last": [[float(totals(c, [frac(v) for v in res["x"][0]], n, ns)),
-                                                           float(totals(c, [frac(v) for v in res["x"][-1]], n, ns))] for c in vectors]})
+                                    "totals_first_last": [[_f(totals(c, [frac(v) for v in res["x"][0]], n, ns)),
+                                                           _f(totals(c, [frac(v) for v in res["x"][-1]], n, ns))] for c in vectors]})
             # ---- correspondence: replay a few recorded steps on the model, and its `total`
             eng = engine_io.eng_json(arr, edge=case["edge"])
             ks = list(range(min(nsteps, per_script_model)))
@@ -313,7 +324,7 @@ def run(ctx):
             o = ans.get("ok")
             if kindc == "c":
                 if o is None or [rparse(v) for v in o] != k:
-                    ctx.disagree("cons_totals", small(case), [float(v) for v in k], ans, note="model `total` differs from the oracle's")
+                    ctx.disagree("cons_totals", small(case), [_f(v) for v in k], ans, note="model `total` differs from the oracle's")
                 continue
             cse = dict(small(case), step=k)
             nxt = res["x"][k + 1]
@@ -325,7 +336,7 @@ def run(ctx):
                 dtq = frac(case["dt"])
                 bad = [p for p in range(len(mx)) if not close(nxt[p], mx[p], mag=abs(frac(res["x"][k][p])) + abs(dx[p] * dtq), rel=1e-9)]
                 if bad:
-                    ctx.disagree("euler_step", cse, {"x_next": nxt}, {"x_next": [float(v) for v in mx]}, note="entries %s differ" % bad[:5])
+                    ctx.disagree("euler_step", cse, {"x_next": nxt}, {"x_next": [_f(v) for v in mx]}, note="entries %s differ" % bad[:5])
                 else:
                     ctx.count("model_steps_euler")
             elif kindc == "t":
@@ -342,8 +353,8 @@ def run(ctx):
                     ctx.disagree("gillespie_step", cse, {"x_next": nxt}, {"x_next": o["x"], "event": o["event"]}, note="selected event differs")
                 else:
                     ctx.count("model_steps_gillespie")
-    ctx.notes.append("euler_conserves is proved for every topology with a half-edge pairing (C02.euler_conserves_partial); the grid "
-                     "instance assumes the neighbour involution (builder geom), the graph instance is missing")
+    ctx.notes.append("euler_conserves is proved unconditionally for grids (all sizes / boundary settings) and graphs (all edge lists); "
+                     "float drift of the Euler engine is checked against 1e-9 relative per step, not proved")
 
 
 def replay(ctx, rec):
